@@ -44,7 +44,7 @@ def fault_lines(kind, cont):
     return ['\t' + op + ' \\', '\t  \\', '\t  ' + arg]
 
 
-def build(shape, kind, pos, cont):
+def build(shape, kind, pos, cont, nonl=False, longnames=False):
     """returns (files, expected) where expected = list of (includechain, file, line, constructs[(NAME, bodyline)], mult)"""
     files = {}
     counter = [0]
@@ -65,8 +65,8 @@ def build(shape, kind, pos, cont):
         counter[0] += 1
         n = counter[0]
         if k == 'INC':
-            name = 'i%d.inc' % n
-            files[name] = '\n'.join(inner) + '\n'
+            name = ('i%d.inc' if not longnames else 'include_file_with_a_long_name_%d.inc') % n
+            files[name] = '\n'.join(inner) + ('' if nonl else '\n')        # nonl: the last line of the file has no line end
             return ['\tnop', '\tinclude "%s"' % name, '\tnop'], [(2, ('INC', name, ifaults))]
         if k == 'MAC':
             predef.append(['m%d\tmacro' % n] + inner + ['\tendm'])
@@ -80,8 +80,10 @@ def build(shape, kind, pos, cont):
     top, faults = body(0)
     pre = [l for m in predef for l in m]
     tail = ['\tnop', FAULTS[kind][0], '\tnop']       # a second fault behind the construct: line counting must have recovered
+    if nonl:
+        tail = tail[:2]                               # ... which is then the last, unterminated line of the main file
     main = ['\tcpu 6502'] + pre + top + tail
-    files['main.asm'] = '\n'.join(main) + '\n'
+    files['main.asm'] = '\n'.join(main) + ('' if nonl else '\n')
     exps = []
 
     def walk(incchain, curfile, off, faults, cons, mult, first_line_in_file):
@@ -160,6 +162,19 @@ def subspaces(tier):
                         yield {'k': 'shape', 'shape': list(s), 'fault': 'unknown' if pos == 0 else 'range', 'pos': pos, 'cont': 'none', 'opts': o}
     subs.append(('option-sets depth<=2', opts()))
 
+    def fileends():
+        # the faulty statement on the last, unterminated line of its file; include files with long names (the GNU include chain is
+        # assembled in a buffer sized from the names)
+        for k in range(0, 4):
+            for s in itertools.product(('INC', 'MAC'), repeat=k):
+                for kind in ('unknown', 'range'):
+                    for o in ([], ['-gnuerrors'], ['-E', 'err.log']):
+                        for nonl in (0, 1):
+                            for lg in (0, 1):
+                                if nonl or lg:
+                                    yield {'k': 'shape', 'shape': list(s), 'fault': kind, 'pos': 2, 'cont': 'none', 'opts': o, 'nonl': bool(nonl), 'long': bool(lg)}
+    subs.append(('file-ends-and-long-include-names', fileends()))
+
     def undef():
         for k in range(0, D + 1):
             for s in itertools.product(KINDS, repeat=k):
@@ -180,7 +195,8 @@ def subspaces(tier):
 def describe(case):
     if case['k'] == 'expect':
         return 'expect %s ; provoked %s' % (case['ann'], case['prov'])
-    return '%s fault %s pos %s cont %s opts %s' % ('>'.join(case['shape']) or 'main', case.get('fault', 'undef'), case['pos'], case.get('cont'), case.get('opts'))
+    return '%s fault %s pos %s cont %s opts %s%s%s' % ('>'.join(case['shape']) or 'main', case.get('fault', 'undef'), case['pos'], case.get('cont'), case.get('opts'),
+                                                   ' (files end without newline)' if case.get('nonl') else '', ' (long include names)' if case.get('long') else '')
 
 
 def evaluate(case):
@@ -191,7 +207,7 @@ def evaluate(case):
         files, exps = build(case['shape'], 'undef', case['pos'], 'none')
         opts = []
     else:
-        files, exps = build(case['shape'], case['fault'], case['pos'], case['cont'])
+        files, exps = build(case['shape'], case['fault'], case['pos'], case['cont'], case.get('nonl', False), case.get('long', False))
         opts = case['opts']
     core.fresh()
     for n, t in files.items():
